@@ -24,7 +24,7 @@ file this hand-written model relies on.
 `ord : MapOrder`, the enumeration the runtime happens to choose; the only fact ever assumed about it is
 `ord m` is a permutation of `m`.
 
-Strings are `List Nat` (code points; ASCII semantics for `TrimSpace`/`ToLower`) because `String` functions do
+Strings are `List Nat` (bytes; ASCII semantics for `TrimSpace`/`ToLower`) because `String` functions do
 not reduce in the kernel. Value parsing (`strconv`, `time.ParseDuration`, `hex`, `currency.ParseZCN`) is Go
 library code: the model is parametric in a `Parsers` record (theorems quantify over all of them) and
 `Parsers.go` is the concrete instance used by the driver, exact on the grammar the harness generates:
@@ -182,10 +182,10 @@ def parseDec (s : Str) : Option Dec :=
     let m := (ip ++ fp).foldl (fun a c => a * 10 + (c - 48)) 0
     some (Dec.norm ⟨neg, m, fp.length⟩)
 
-/-- unit table of `time.ParseDuration` (`µs` with U+00B5 and U+03BC) -/
+/-- unit table of `time.ParseDuration` (`µs` with U+00B5 and U+03BC, as UTF-8 bytes) -/
 def durUnit (u : Str) : Option Nat :=
   if u = S "ns" then some 1
-  else if u = S "us" || u = [181, 115] || u = [956, 115] then some 1000
+  else if u = S "us" || u = [194, 181, 115] || u = [206, 188, 115] then some 1000
   else if u = S "ms" then some 1000000
   else if u = S "s" then some 1000000000
   else if u = S "m" then some 60000000000
